@@ -98,3 +98,101 @@ Proof.
   rewrite Vy', V1', Vy, V1. fold t p. field. split; assumption.
 Qed.
 End RateRoundTrip.
+
+(** * C13, decimal: (rate * value) / rate returns the value within an explicit bound *)
+From QV Require Import Amount.DecModel Amount.Dec Amount.DecAcc Proofs.AccDec.
+From QV Require Amount.Laws.
+
+Section RateRoundTripDec.
+Context (TQ PQ : QFull DEC).
+Hypothesis LT : QLaws TQ.
+Hypothesis LP : QLaws PQ.
+Hypothesis HdivT : forall x y, q_div TQ x y = HasRefUnit_div TQ x y.
+Hypothesis HdivP : forall x y, q_div PQ x y = HasRefUnit_div PQ x y.
+Notation ok := Amount.Laws.dec_ok.
+
+Theorem rate_mul_then_div_dec (r : rate DEC) (q : Qt PQ) (y : Qt TQ) (y' : Qt PQ) :
+  let a := dval (q_amount PQ q) in let t := dval (rt_term_amount r) in let p := dval (rt_per_unit_multiple r) in
+  In (rt_term_unit r) (u_iter TQ) -> In (rt_per_unit r) (u_iter PQ) -> q_unit PQ q = rt_per_unit r ->
+  ok (q_amount PQ q) -> ok (rt_term_amount r) -> ok (rt_per_unit_multiple r) ->
+  Rate_mul TQ PQ r q = Ok y -> tmpl_Div_Qty_Rate TQ PQ y r = Ok y' ->
+  q_unit TQ y = rt_term_unit r /\ q_unit PQ y' = rt_per_unit r /\ t <> 0 /\ p <> 0 /\
+  Rabs (dval (q_amount PQ y') - a) <= half_ulp18 * ((Rabs p + 1) + Rabs p / Rabs t * (Rabs t + 1)).
+Proof.
+  intros a t p Htu Hpu Eq Ha Ht Hp Ey Ey'.
+  assert (Hone : ok dec_one) by (unfold Amount.Laws.dec_ok; cbn; lia).
+  destruct (ratio_to_unit_same_dec PQ LP q (rt_per_unit r) Hpu Eq) as (x1 & E1 & V1). rewrite <- HdivP in E1.
+  assert (Hx1 : ok x1).
+  { revert E1. rewrite HdivP, (ref_div_same_unit PQ q (q_new PQ (a_one DEC) (rt_per_unit r))) by (rewrite (law_unit_new PQ LP _ _ Hpu); exact Eq).
+    rewrite (law_amount_new PQ LP). cbn [a_div a_one DEC]. intros E. destruct (dec_div_acc _ _ _ Ha Hone E) as (H & _). exact H. }
+  destruct (rate_mul_dec TQ PQ LT r q x1 y E1 Htu Hx1 Hp Ht Ey) as (_ & Euy & Hp0 & By).
+  assert (Hya : ok (q_amount TQ y)).
+  { destruct (rate_mul_kernel TQ PQ r q) as [Ek _]. rewrite Ek in Ey. unfold rate_mul_nf in Ey. rewrite E1 in Ey. cbn [bind a_div a_mul DEC] in Ey.
+    destruct (dec_div x1 (rt_per_unit_multiple r)) as [x2|] eqn:E2; cbn [bind] in Ey; [|discriminate].
+    destruct (dec_mul x2 (rt_term_amount r)) as [x3|] eqn:E3; cbn [bind] in Ey; [|discriminate]. injection Ey as <-.
+    rewrite (law_amount_new TQ LT). destruct (dec_div_acc _ _ _ Hx1 Hp E2) as (H2 & _). destruct (dec_mul_acc _ _ _ H2 Ht E3) as (H3 & _). exact H3. }
+  destruct (ratio_to_unit_same_dec TQ LT y (rt_term_unit r) Htu Euy) as (x1' & E1' & V1'). rewrite <- HdivT in E1'.
+  assert (Hx1' : ok x1').
+  { revert E1'. rewrite HdivT, (ref_div_same_unit TQ y (q_new TQ (a_one DEC) (rt_term_unit r))) by (rewrite (law_unit_new TQ LT _ _ Htu); exact Euy).
+    rewrite (law_amount_new TQ LT). cbn [a_div a_one DEC]. intros E. destruct (dec_div_acc _ _ _ Hya Hone E) as (H & _). exact H. }
+  destruct (qty_div_rate_dec TQ PQ LP y r x1' y' E1' Hpu Hx1' Ht Hp Ey') as (Euy' & Ht0 & By').
+  split; [exact Euy|]. split; [exact Euy'|]. split; [exact Ht0|]. split; [exact Hp0|].
+  rewrite V1 in By. rewrite V1' in By'. fold a t p in By, By'.
+  set (ya := dval (q_amount TQ y)) in *. set (ya' := dval (q_amount PQ y')) in *.
+  assert (Pt : 0 < Rabs t) by (apply Rabs_pos_lt; exact Ht0).
+  replace (ya' - a) with ((ya' - p * (ya / t)) + p * ((ya - t * (a / p)) / t)) by (field; split; assumption).
+  eapply Rle_trans; [apply Rabs_triang|].
+  assert (B2 : Rabs (p * ((ya - t * (a / p)) / t)) <= Rabs p / Rabs t * (half_ulp18 * (Rabs t + 1))).
+  { unfold Rdiv. rewrite !Rabs_mult, Rabs_inv.
+    replace (Rabs p * / Rabs t * (half_ulp18 * (Rabs t + 1))) with (Rabs p * ((half_ulp18 * (Rabs t + 1)) * / Rabs t)) by ring.
+    apply Rmult_le_compat_l; [apply Rabs_pos|]. apply Rmult_le_compat_r; [apply Rlt_le, Rinv_0_lt_compat; exact Pt|exact By]. }
+  unfold Rdiv in *. lra.
+Qed.
+End RateRoundTripDec.
+
+(** * C04, decimal: multiply then divide on the natural-unit path *)
+Section RoundTripDec.
+Context (R0 L0 : QFull DEC).
+Hypothesis LR : QLaws R0.
+Hypothesis LL : QLaws L0.
+Hypothesis HscR : forall w, In w (u_iter R0) -> dfit (u_scale R0 w).
+Hypothesis HscL : forall w, In w (u_iter L0) -> dfit (u_scale L0 w).
+Variables su sv a b : dec.
+Notation ok := Amount.Laws.dec_ok.
+Hypotheses (Hu : ok su) (Hv : ok sv) (Ha : ok a) (Hb : ok b).
+
+Theorem mul_then_div_natural_dec (z : Qt R0) (z' : Qt L0) (sc sc2 : dec) (w u' : nat) :
+  dec_mul su sv = Ok sc -> (Z.abs (d_coeff sc) <= i128_max)%Z -> HasRefUnit_unit_from_scale R0 sc = Some w ->
+  @derived_nf DEC dec_mul R0 su sv a b = Ok z ->
+  dec_div (u_scale R0 w) sv = Ok sc2 -> (Z.abs (d_coeff sc2) <= i128_max)%Z -> HasRefUnit_unit_from_scale L0 sc2 = Some u' ->
+  @derived_nf DEC dec_div L0 (u_scale R0 (q_unit R0 z)) sv (q_amount R0 z) b = Ok z' ->
+  q_unit R0 z = w /\ q_unit L0 z' = u' /\ dval sv <> 0 /\ dval b <> 0 /\
+  Rabs (dmag_o L0 z' - dval a * dval su) <=
+    half_ulp18 * (Rabs (dval sc2) + Rabs (dval (q_amount R0 z) / dval b)) +
+    half_ulp18 * (Rabs (dval sc) + Rabs (dval a * dval b)) / (Rabs (dval b) * Rabs (dval sv)).
+Proof.
+  intros Esc Csc Ew Ez Esc2 Csc2 Eu' Ez'.
+  destruct (dec_derived_natural dec_mul Rmult (fun _ => True) mul_dop_rel R0 LR HscR su sv a b Hu Hv Ha Hb z sc w Esc Csc Ew Ez) as (Euz & Hinw & Bz & _).
+  destruct (HscR w Hinw) as [Hw _].
+  assert (Haz : ok (q_amount R0 z)).
+  { unfold derived_nf in Ez. rewrite Esc in Ez. cbn [bind] in Ez. rewrite Ew in Ez.
+    destruct (dec_mul a b) as [m|] eqn:Em; cbn [bind] in Ez; [|discriminate]. injection Ez as <-. rewrite (law_amount_new R0 LR).
+    destruct (dec_mul_acc _ _ _ Ha Hb Em) as (H & _). exact H. }
+  rewrite Euz in Ez'.
+  destruct (dec_derived_natural dec_div Rdiv (fun y => dval y <> 0) div_dop_rel L0 LL HscL (u_scale R0 w) sv (q_amount R0 z) b Hw Hv Haz Hb z' sc2 u' Esc2 Csc2 Eu' Ez')
+    as (Euz' & _ & Bz' & _).
+  destruct (dec_div_acc _ _ _ Hw Hv Esc2) as (_ & Hv0 & _).
+  assert (Hb0 : dval b <> 0).
+  { unfold derived_nf in Ez'. rewrite Esc2 in Ez'. cbn [bind] in Ez'. rewrite Eu' in Ez'.
+    destruct (dec_div (q_amount R0 z) b) as [m|] eqn:Em; cbn [bind] in Ez'; [|discriminate]. destruct (dec_div_acc _ _ _ Haz Hb Em) as (_ & H & _). exact H. }
+  split; [exact Euz|]. split; [exact Euz'|]. split; [exact Hv0|]. split; [exact Hb0|].
+  (* mag z = a_z * s_w;  a_z / b * (s_w / sv) = mag z / (b sv) *)
+  unfold dmag_o in Bz. rewrite Euz in Bz. set (az := dval (q_amount R0 z)) in *. set (sw := dval (u_scale R0 w)) in *.
+  assert (Pb : 0 < Rabs (dval b)) by (apply Rabs_pos_lt; exact Hb0). assert (Pv : 0 < Rabs (dval sv)) by (apply Rabs_pos_lt; exact Hv0).
+  replace (dmag_o L0 z' - dval a * dval su)
+    with ((dmag_o L0 z' - az / dval b * (sw / dval sv)) + (az * sw - dval a * dval b * (dval su * dval sv)) / (dval b * dval sv)) by (field; split; assumption).
+  eapply Rle_trans; [apply Rabs_triang|]. apply Rplus_le_compat; [exact Bz'|].
+  unfold Rdiv. rewrite Rabs_mult, Rabs_inv, Rabs_mult.
+  apply Rmult_le_compat_r; [apply Rlt_le, Rinv_0_lt_compat, Rmult_lt_0_compat; assumption|exact Bz].
+Qed.
+End RoundTripDec.
